@@ -1,5 +1,1075 @@
-//! C10 — not built yet.
+//! C10 — TFM and PL readers are total; PL->TFM output is always a readable TFM.
+//! Engine: DEV (fault / deviation enumeration). DESIGN.md §3 C10.
+//!
+//! Every sweep over untrusted input runs in worker subprocesses (this binary re-executed with a
+//! hidden `--worker` argument): a worker owns a contiguous index range, runs on a 512 MB stack,
+//! writes the index of the case it is about to run into a progress file, and prints its accumulator
+//! as one JSON line at the end. A worker that dies (stack overflow, allocation failure, abort) or
+//! stops making progress is attributed to the case in its progress file, which becomes a `fail`;
+//! the rest of its range is re-run by fresh workers.
+
+use reftex::tfmraw;
+use serde_json::{json, Value};
+use std::collections::BTreeMap;
+use std::io::Read;
+use std::os::unix::fs::FileExt;
+use std::process::{Command, Stdio};
+use std::time::{Duration, Instant};
+use vcore::{catch, Acc, Ctx, Fail, Level};
+
+// ------------------------------------------------------------------ known panic sites
+// (finding id, file suffix, fragment of the source line). A panic explains a case only if its call
+// site is listed here; the id must also be listed in known_findings.json (decided in Ctx::finish).
+const KNOWN_SITES: &[(&str, &str, &str)] = &[];
+
+fn known_site(p: &vcore::Panic) -> Option<&'static str> {
+    let file = p.file.clone();
+    let text = source_line_cached(p);
+    KNOWN_SITES.iter().find(|(_, f, t)| file.ends_with(f) && !t.is_empty() && text.contains(t)).map(|x| x.0)
+}
+
+// ------------------------------------------------------------------ data
+
+struct Data {
+    /// corpus fonts sorted by (length, name)
+    tfms: Vec<(String, Vec<u8>)>,
+    /// corpus property lists sorted by (length, name)
+    pls: Vec<(String, String)>,
+    synth: Vec<(String, Vec<u8>)>,
+    thorough: bool,
+}
+
+fn size_table(v: [u16; 12]) -> Vec<u8> {
+    v.iter().flat_map(|x| x.to_be_bytes()).collect()
+}
+
+fn synthetic() -> Vec<(String, Vec<u8>)> {
+    let mut out = vec![];
+    // no characters: lf=12 lh=2 bc=1 ec=0 nw=nh=nd=ni=1
+    let mut m = size_table([12, 2, 1, 0, 1, 1, 1, 1, 0, 0, 0, 0]);
+    m.extend([0u8; 24]);
+    m[28] = 0x00;
+    m[29] = 0xa0; // design size 10.0
+    out.push(("synthetic/min48".to_string(), m));
+    // one character A with a lig/kern program of two words, one kern, one recipe, one parameter
+    let mut m = size_table([19, 2, 65, 65, 2, 1, 1, 1, 2, 1, 1, 1]);
+    m.extend([0, 0, 0, 0, 0x00, 0xa0, 0, 0]); // header
+    m.extend([1, 0, 1, 0]); // char_info: width 1, tag 1, program at 0
+    m.extend([0, 0, 0, 0, 0, 0x10, 0, 0]); // widths 0, 1.0
+    m.extend([0u8; 12]); // height, depth, italic
+    m.extend([0, 65, 128, 0, 128, 65, 0, 65]); // A A -> kern 0 ; A A -> LIG A
+    m.extend([0, 1, 0, 0]); // kern
+    m.extend([0, 0, 0, 65]); // exten
+    m.extend([0, 4, 0, 0]); // param
+    out.push(("synthetic/min76".to_string(), m));
+    out.push(("synthetic/zeros16".to_string(), vec![0; 16]));
+    out.push(("synthetic/zeros24".to_string(), vec![0; 24]));
+    out.push(("synthetic/ff32".to_string(), vec![0xff; 32]));
+    out
+}
+
+fn load(thorough: bool) -> Data {
+    THOROUGH.store(thorough, std::sync::atomic::Ordering::Relaxed);
+    let root = std::env::var("VERIF_REPO").unwrap_or("/repo".into());
+    let (mut tfms, mut pls) = (vec![], vec![]);
+    for dir in ["originals", "computer-modern", "ctan", "fuzz"] {
+        let Ok(rd) = std::fs::read_dir(format!("{root}/crates/tfm/corpus/{dir}")) else { continue };
+        for e in rd.flatten() {
+            let p = e.path();
+            let name = format!("{dir}/{}", p.file_name().unwrap().to_string_lossy());
+            match p.extension().and_then(|x| x.to_str()) {
+                Some("tfm") => {
+                    if let Ok(b) = std::fs::read(&p) {
+                        tfms.push((name, b));
+                    }
+                }
+                Some("plst") | Some("pl") => {
+                    if let Ok(s) = std::fs::read_to_string(&p) {
+                        pls.push((name, s));
+                    }
+                }
+                _ => {}
+            }
+        }
+    }
+    tfms.sort_by(|a, b| (a.1.len(), &a.0).cmp(&(b.1.len(), &b.0)));
+    pls.sort_by(|a, b| (a.1.len(), &a.0).cmp(&(b.1.len(), &b.0)));
+    Data { tfms, pls, synth: synthetic(), thorough }
+}
+
+// ------------------------------------------------------------------ accumulator with per-site witnesses
+
+#[derive(Default)]
+struct W {
+    acc: Acc,
+    /// panic site / abort class -> (cases, smallest index, case)
+    sites: BTreeMap<String, (u64, u64, Value)>,
+}
+
+fn leak(s: &str) -> &'static str {
+    Box::leak(s.to_string().into_boxed_str())
+}
+
+fn w_to_json(w: &W) -> Value {
+    let a = &w.acc;
+    json!({
+        "evals": a.evals, "nontrivial": a.nontrivial, "counters": a.counters, "classes": a.classes,
+        "fail_count": a.fail_count, "cutoffs": a.cutoffs, "skipped": a.skipped,
+        "fails": a.fails.iter().map(|f| json!({"idx": f.idx, "case": f.case, "expected": f.expected, "observed": f.observed, "note": f.note})).collect::<Vec<_>>(),
+        "known": a.known.iter().map(|(k, v)| (k.clone(), json!([v.0, v.1, v.2]))).collect::<serde_json::Map<_, _>>(),
+        "samples": a.samples.iter().map(|(i, v)| json!([i, v])).collect::<Vec<_>>(),
+        "sites": w.sites.iter().map(|(k, v)| (k.clone(), json!([v.0, v.1, v.2]))).collect::<serde_json::Map<_, _>>(),
+    })
+}
+fn w_from_json(v: &Value) -> W {
+    let mut w = W::default();
+    let a = &mut w.acc;
+    a.evals = v["evals"].as_u64().unwrap_or(0);
+    a.nontrivial = v["nontrivial"].as_u64().unwrap_or(0);
+    a.fail_count = v["fail_count"].as_u64().unwrap_or(0);
+    a.cutoffs = v["cutoffs"].as_u64().unwrap_or(0);
+    a.skipped = v["skipped"].as_u64().unwrap_or(0);
+    if let Some(m) = v["counters"].as_object() {
+        for (k, x) in m {
+            a.counters.insert(leak(k), x.as_u64().unwrap_or(0));
+        }
+    }
+    if let Some(m) = v["classes"].as_object() {
+        for (k, x) in m {
+            a.classes.insert(k.clone(), x.as_u64().unwrap_or(0));
+        }
+    }
+    if let Some(fs) = v["fails"].as_array() {
+        for f in fs {
+            a.fails.push(Fail { idx: f["idx"].as_u64().unwrap_or(0), case: f["case"].clone(), expected: f["expected"].as_str().unwrap_or("").into(), observed: f["observed"].as_str().unwrap_or("").into(), note: f["note"].as_str().unwrap_or("").into() });
+        }
+    }
+    if let Some(m) = v["known"].as_object() {
+        for (k, x) in m {
+            a.known.insert(k.clone(), (x[0].as_u64().unwrap_or(0), x[1].as_u64().unwrap_or(0), x[2].clone()));
+        }
+    }
+    if let Some(s) = v["samples"].as_array() {
+        for x in s {
+            a.samples.push((x[0].as_u64().unwrap_or(0), x[1].clone()));
+        }
+    }
+    if let Some(m) = v["sites"].as_object() {
+        for (k, x) in m {
+            w.sites.insert(k.clone(), (x[0].as_u64().unwrap_or(0), x[1].as_u64().unwrap_or(0), x[2].clone()));
+        }
+    }
+    w
+}
+fn w_merge(into: &mut W, o: W) {
+    into.acc.merge(o.acc);
+    for (k, (n, i, c)) in o.sites {
+        match into.sites.get_mut(&k) {
+            Some(e) => {
+                e.0 += n;
+                if i < e.1 {
+                    e.1 = i;
+                    e.2 = c;
+                }
+            }
+            None => {
+                into.sites.insert(k, (n, i, c));
+            }
+        }
+    }
+}
+fn note_site(w: &mut W, site: &str, idx: u64, case: &dyn Fn() -> Value) {
+    match w.sites.get_mut(site) {
+        Some(e) => {
+            e.0 += 1;
+            if idx < e.1 {
+                e.1 = idx;
+                e.2 = case();
+            }
+        }
+        None => {
+            w.sites.insert(site.to_string(), (1, idx, case()));
+        }
+    }
+}
+
+// ------------------------------------------------------------------ the two judged operations
+
+fn hex(b: &[u8]) -> String {
+    b.iter().map(|x| format!("{x:02x}")).collect()
+}
+fn unhex(s: &str) -> Vec<u8> {
+    (0..s.len() / 2).map(|i| u8::from_str_radix(&s[2 * i..2 * i + 2], 16).unwrap_or(0)).collect()
+}
+
+fn fmt_default(_: &tfm::pl::File) -> tfm::pl::CharDisplayFormat {
+    tfm::pl::CharDisplayFormat::Default
+}
+
+/// `Panic::source_line` reads the source file; a sweep can hit the same site a million times.
+fn source_line_cached(p: &vcore::Panic) -> String {
+    thread_local! { static CACHE: std::cell::RefCell<BTreeMap<(String, u32), String>> = const { std::cell::RefCell::new(BTreeMap::new()) }; }
+    CACHE.with(|c| c.borrow_mut().entry((p.file.clone(), p.line)).or_insert_with(|| p.source_line()).clone())
+}
+
+fn panic_fail(w: &mut W, idx: u64, case: &dyn Fn() -> Value, p: vcore::Panic, stage: &str) {
+    let site = format!("{} [{}]", p.site(), source_line_cached(&p));
+    w.acc.class(&format!("PANIC {stage}: {}", vcore::clip(&site, 160)));
+    note_site(w, &format!("{stage}: {site} :: {}", vcore::clip(&p.msg, 80)), idx, case);
+    match known_site(&p) {
+        Some(id) => w.acc.known(id, idx, || {
+            let mut v = case();
+            v["panic"] = json!(p.describe());
+            v
+        }),
+        None => {
+            // only the smallest few failing cases are kept: do not build descriptions for the rest
+            if w.acc.fails.len() < 6 || w.acc.fails.last().map(|f| idx < f.idx).unwrap_or(true) {
+                w.acc.fail(idx, case(), "a result or a documented error, plus warnings", format!("panic at {}: {} [source line: {}]", p.site(), vcore::clip(&p.msg, 200), source_line_cached(&p)), format!("{stage} panicked"));
+            } else {
+                w.acc.fail_count += 1;
+            }
+        }
+    }
+}
+
+/// TFM bytes produced by the crate must be accepted by its own reader and by the independent one.
+fn check_reread(w: &mut W, idx: u64, case: &dyn Fn() -> Value, bytes: &[u8], stage: &str) -> bool {
+    match catch(|| tfm::File::deserialize(bytes).0.map(|_| ()).map_err(|e| format!("{e:?}"))) {
+        Err(p) => {
+            panic_fail(w, idx, case, p, &format!("{stage}: reading the TFM that pl_to_tfm returned"));
+            return false;
+        }
+        Ok(Err(e)) => {
+            w.acc.class(&format!("REJECTED {stage}: {}", e.split('(').next().unwrap_or("")));
+            note_site(w, &format!("{stage}: pl_to_tfm output rejected by File::deserialize: {}", e.split('(').next().unwrap_or("")), idx, case);
+            w.acc.fail(idx, case(), "pl_to_tfm output is accepted by the TFM reader", format!("{e} (TFM: {})", vcore::clip(&hex(bytes), 400)), format!("{stage}: output of pl_to_tfm is not a readable TFM"));
+            return false;
+        }
+        Ok(Ok(())) => {}
+    }
+    if let Err(e) = tfmraw::parse(bytes) {
+        w.acc.class(&format!("REJECTED by tfmraw {stage}"));
+        note_site(w, &format!("{stage}: pl_to_tfm output violates the size equations: {e:?}"), idx, case);
+        w.acc.fail(idx, case(), "pl_to_tfm output satisfies the TFM size equations (independent reader)", format!("{e:?} (TFM: {})", vcore::clip(&hex(bytes), 400)), format!("{stage}: output of pl_to_tfm breaks the size equations"));
+        return false;
+    }
+    true
+}
+
+/// One byte string as a .tfm file.
+fn check_bytes(w: &mut W, idx: u64, bytes: &[u8], case: &dyn Fn() -> Value) {
+    w.acc.eval();
+    if tfmraw::parse(bytes).is_ok() {
+        w.acc.count("faulted_tfm_passes_size_checks");
+    }
+    let r = catch(|| tfm::algorithms::tfm_to_pl(bytes, 3, &fmt_default));
+    let out = match r {
+        Err(p) => return panic_fail(w, idx, case, p, "tfm_to_pl"),
+        Ok(Err(_)) => {
+            w.acc.fail(idx, case(), "Ok", "std::fmt::Error", "tfm_to_pl returned a formatting error");
+            return;
+        }
+        Ok(Ok(o)) => o,
+    };
+    for m in &out.error_messages {
+        let _ = m.tftopl_message();
+    }
+    match out.pl_data {
+        Err(e) => {
+            let _ = e.tftopl_message();
+            let s = format!("{e:?}");
+            w.acc.class(&format!("tfm: error {}", s.split('(').next().unwrap_or("")));
+        }
+        Ok(pl) => {
+            w.acc.nontrivial();
+            w.acc.class(if out.error_messages.is_empty() { "tfm: converted" } else { "tfm: converted with messages" });
+            if !out.error_messages.is_empty() {
+                w.acc.sample(idx, || {
+                    let mut v = case();
+                    v["outcome"] = json!(format!("property list of {} bytes, {} message(s), first: {}", pl.len(), out.error_messages.len(), vcore::clip(&out.error_messages[0].tftopl_message(), 120)));
+                    v
+                });
+            }
+            // the property list TFtoPL wrote is itself a text for PLtoTF
+            match catch(|| tfm::algorithms::pl_to_tfm(&pl)) {
+                Err(p) => panic_fail(w, idx, case, p, "pl_to_tfm(tfm_to_pl(bytes))"),
+                Ok((b, _)) => {
+                    check_reread(w, idx, case, &b, "after tfm_to_pl");
+                }
+            }
+        }
+    }
+}
+
+/// One text as a .pl file.
+fn check_text(w: &mut W, idx: u64, text: &str, case: &dyn Fn() -> Value) {
+    w.acc.eval();
+    {
+        let (mut depth, mut ok) = (0i64, true);
+        for c in text.bytes() {
+            match c {
+                b'(' => depth += 1,
+                b')' => {
+                    depth -= 1;
+                    ok &= depth >= 0;
+                }
+                _ => {}
+            }
+        }
+        w.acc.count(if ok && depth == 0 { "faulted_pl_with_balanced_parentheses" } else { "faulted_pl_with_unbalanced_parentheses" });
+    }
+    let (bytes, warnings) = match catch(|| tfm::algorithms::pl_to_tfm(text)) {
+        Err(p) => return panic_fail(w, idx, case, p, "pl_to_tfm"),
+        Ok(x) => x,
+    };
+    if !warnings.is_empty() {
+        w.acc.nontrivial();
+    }
+    w.acc.class(&format!("pl: converted, {} warning(s)", match warnings.len() { 0 => "0", 1 => "1", 2..=5 => "2-5", _ => ">5" }));
+    if !check_reread(w, idx, case, &bytes, "pl_to_tfm") {
+        return;
+    }
+    // and the reader side on what was written
+    match catch(|| tfm::algorithms::tfm_to_pl(&bytes, 3, &fmt_default).map(|o| o.pl_data.is_ok())) {
+        Err(p) => panic_fail(w, idx, case, p, "tfm_to_pl(pl_to_tfm(text))"),
+        Ok(_) => {}
+    }
+}
+
+// ------------------------------------------------------------------ families: index -> case
+
+const REPL: &[&str] = &[
+    "0", "255", "256", "2047", "2048", "-1", "77777777777", "0.5", "16.0", "-16.0", "2047.9999999", "-2047.9999999", "C", "O", "D", "H", "R", "F", "A", "MRR", "TRUE", "LABEL", "STOP", "SKIP", "BOUNDARYCHAR", "(", ")",
+];
+const PROPS: &[&str] = &[
+    "CHECKSUM", "DESIGNSIZE", "DESIGNUNITS", "CODINGSCHEME", "FAMILY", "FACE", "SEVENBITSAFEFLAG", "HEADER", "FONTDIMEN", "LIGTABLE", "BOUNDARYCHAR", "CHARACTER", "COMMENT", "SLANT", "SPACE", "STRETCH", "SHRINK", "XHEIGHT", "QUAD", "EXTRASPACE", "NUM1", "NUM3", "DENOM2", "SUP3", "SUB2", "SUPDROP", "DELIM2", "AXISHEIGHT", "DEFAULTRULETHICKNESS", "BIGOPSPACING5", "PARAMETER", "LABEL", "STOP", "SKIP", "KRN", "LIG", "/LIG", "/LIG>", "LIG/", "LIG/>", "/LIG/", "/LIG/>", "/LIG/>>", "CHARWD", "CHARHT", "CHARDP", "CHARIC", "NEXTLARGER", "VARCHAR", "TOP", "MID", "BOT", "REP",
+];
+const N_FIXED: u64 = 5; // delete, duplicate, truncate before, insert "(", insert ")"
+const N_FILE: u64 = 4; // character codes one below the first / one above the last CHARACTER (octal, decimal)
+fn menu_len() -> u64 {
+    N_FIXED + REPL.len() as u64 + N_FILE + PROPS.len() as u64
+}
+
+fn tokens(t: &str) -> Vec<(usize, usize)> {
+    let mut toks = vec![];
+    let b = t.as_bytes();
+    let mut i = 0;
+    while i < b.len() {
+        let c = b[i];
+        if c == b'(' || c == b')' {
+            toks.push((i, i + 1));
+            i += 1;
+        } else if c.is_ascii_whitespace() {
+            i += 1;
+        } else {
+            let s = i;
+            while i < b.len() && !b[i].is_ascii_whitespace() && b[i] != b'(' && b[i] != b')' {
+                i += 1;
+            }
+            if t.is_char_boundary(s) && t.is_char_boundary(i) {
+                toks.push((s, i));
+            }
+        }
+    }
+    toks
+}
+
+/// First and last character code that has a CHARACTER property (via the crate's own parser; only
+/// used to pick replacement values, never to judge).
+fn char_range(text: &str) -> (i32, i32) {
+    catch(|| {
+        let (f, _) = tfm::pl::File::from_pl_source_code(text);
+        let lo = f.char_dimens.keys().next().map(|c| c.0 as i32).unwrap_or(0);
+        let hi = f.char_dimens.keys().last().map(|c| c.0 as i32).unwrap_or(0);
+        (lo, hi)
+    })
+    .unwrap_or((0, 0))
+}
+
+struct TextFamily {
+    /// (file index, tokens, char range)
+    files: Vec<(usize, Vec<(usize, usize)>, (i32, i32))>,
+    /// prefix sums of tokens*menu
+    starts: Vec<u64>,
+}
+impl TextFamily {
+    fn new(d: &Data) -> TextFamily {
+        let (max_bytes, max_tokens) = if d.thorough { (25_000usize, 800usize) } else { (700usize, 400usize) };
+        let mut files = vec![];
+        let mut starts = vec![0u64];
+        for (i, (_, t)) in d.pls.iter().enumerate() {
+            if t.len() > max_bytes {
+                continue;
+            }
+            let mut toks = tokens(t);
+            toks.truncate(max_tokens);
+            let n = toks.len() as u64 * menu_len();
+            files.push((i, toks, char_range(t)));
+            starts.push(starts.last().unwrap() + n);
+        }
+        TextFamily { files, starts }
+    }
+    fn len(&self) -> u64 {
+        *self.starts.last().unwrap()
+    }
+    /// None = the menu item does not apply to this token (not a case).
+    fn case(&self, d: &Data, idx: u64) -> Option<(String, String)> {
+        let fi = self.starts.partition_point(|s| *s <= idx) - 1;
+        let (pi, toks, (lo, hi)) = &self.files[fi];
+        let r = idx - self.starts[fi];
+        let (k, item) = ((r / menu_len()) as usize, r % menu_len());
+        let (name, t) = &d.pls[*pi];
+        let (s, e) = toks[k];
+        let tok = &t[s..e];
+        let rep = |x: &str| format!("{}{}{}", &t[..s], x, &t[e..]);
+        let (what, text) = if item < N_FIXED {
+            match item {
+                0 => ("deleted".to_string(), rep("")),
+                1 => ("duplicated".to_string(), format!("{}{} {}", &t[..e], if tok == "(" || tok == ")" { "" } else { " " }, &t[s..])),
+                2 => ("file truncated before it".to_string(), t[..s].to_string()),
+                3 => ("`(` inserted before it".to_string(), format!("{}( {}", &t[..s], &t[s..])),
+                _ => ("`)` inserted before it".to_string(), format!("{}) {}", &t[..s], &t[s..])),
+            }
+        } else if item < N_FIXED + REPL.len() as u64 {
+            let x = REPL[(item - N_FIXED) as usize];
+            if x == tok {
+                return None;
+            }
+            (format!("replaced by `{x}`"), rep(x))
+        } else if item < N_FIXED + REPL.len() as u64 + N_FILE {
+            if !tok.as_bytes()[0].is_ascii_digit() {
+                return None;
+            }
+            let x = match item - N_FIXED - REPL.len() as u64 {
+                0 => format!("{:o}", (lo - 1).max(0)),
+                1 => format!("{:o}", hi + 1),
+                2 => format!("{}", (lo - 1).max(0)),
+                _ => format!("{}", hi + 1),
+            };
+            if x == tok {
+                return None;
+            }
+            (format!("replaced by `{x}` (characters declared: {lo}..{hi})"), rep(&x))
+        } else {
+            // property name swap: only for a token directly after an opening parenthesis
+            if k == 0 || &t[toks[k - 1].0..toks[k - 1].1] != "(" {
+                return None;
+            }
+            let x = PROPS[(item - N_FIXED - REPL.len() as u64 - N_FILE) as usize];
+            if x == tok {
+                return None;
+            }
+            (format!("property name replaced by `{x}`"), rep(x))
+        };
+        Some((format!("{name}: token {k} `{}` {what}", vcore::clip(tok, 30)), text))
+    }
+}
+
+/// Lattices for the template family.
+const FIX: &[&str] = &["0", "1", "-1", "0.000001", "15.999999", "16", "-16", "-16.000001", "1023.5", "2047.999999", "2048", "-2047.999999", "-2048", "99999999999", "1.0E5", ""];
+const CODES: &[&str] = &["C A", "C B", "O 0", "O 377", "O 400", "D 65", "D 256", "H 41", "H FF", "H 100", "F MRR", "C", "D -1"];
+const INTS: &[&str] = &["0", "1", "17", "18", "19", "254", "255", "256", "257", "32767", "32768", "65535", "65536", "2147483647", "2147483648", "4294967295", "4294967296", "-1"];
+
+/// (template, hole kinds) – `#` is a hole; kinds: f = FIX, c = CODES, i = INTS
+const TEMPLATES: &[(&str, &str)] = &[
+    ("(DESIGNSIZE R #)(CHARACTER C A (CHARWD R #))", "ff"),
+    ("(DESIGNSIZE D #)", "i"),
+    ("(DESIGNUNITS R #)(DESIGNSIZE R #)(CHARACTER C A (CHARWD R #))", "fff"),
+    ("(CHECKSUM O #)", "i"),
+    ("(CHECKSUM H #)", "i"),
+    ("(HEADER D # O #)", "ii"),
+    ("(FONTDIMEN (SLANT R #) (PARAMETER D # R #))", "fif"),
+    ("(FONTDIMEN (PARAMETER # R 1.0))", "c"),
+    ("(CHARACTER # (CHARWD R #) (CHARHT R #))", "cff"),
+    ("(CHARACTER C A (CHARWD R #) (CHARDP R #) (CHARIC R #))", "fff"),
+    ("(CHARACTER C A (CHARWD R #))(CHARACTER C B (CHARWD R #))(CHARACTER C C (CHARWD R #))", "fff"),
+    ("(CHARACTER C M (CHARHT R #))(CHARACTER C N (CHARHT R #))(CHARACTER C O (CHARHT R #))", "fff"),
+    ("(CHARACTER # (CHARWD R 1.0))(LIGTABLE (LABEL #) (KRN # R #) (STOP))", "cccf"),
+    ("(CHARACTER # (CHARWD R 1.0))(LIGTABLE (LABEL #) (LIG # #) (STOP))", "cccc"),
+    ("(CHARACTER C M (CHARWD R 1.0))(LIGTABLE (LABEL #) (SKIP D #) (KRN # R 1.0))", "cic"),
+    ("(BOUNDARYCHAR #)(CHARACTER C M (CHARWD R 1.0))(LIGTABLE (LABEL BOUNDARYCHAR) (KRN # R #) (STOP))", "ccf"),
+    ("(CHARACTER # (CHARWD R 1.0) (NEXTLARGER #))(CHARACTER # (NEXTLARGER #))", "cccc"),
+    ("(CHARACTER # (CHARWD R 1.0) (VARCHAR (TOP #) (REP #)))", "ccc"),
+    ("(CHARACTER C M (CHARWD R 1.0))(LIGTABLE (LABEL #)(LABEL #) (KRN # R #))", "cccf"),
+    ("(FACE O #)(FACE F #)(SEVENBITSAFEFLAG #)", "icc"),
+    // more than 15 distinct heights / depths, more than 63 italics: the lossy table compression runs
+    ("(CHARACTER C a (CHARHT R 0.1))(CHARACTER C b (CHARHT R 0.2))(CHARACTER C c (CHARHT R 0.3))(CHARACTER C d (CHARHT R 0.4))(CHARACTER C e (CHARHT R 0.5))(CHARACTER C f (CHARHT R 0.6))(CHARACTER C g (CHARHT R 0.7))(CHARACTER C h (CHARHT R 0.8))(CHARACTER C i (CHARHT R 0.9))(CHARACTER C j (CHARHT R 1.1))(CHARACTER C k (CHARHT R 1.2))(CHARACTER C l (CHARHT R 1.3))(CHARACTER C m (CHARHT R 1.4))(CHARACTER C n (CHARHT R 1.5))(CHARACTER C o (CHARHT R 1.6))(CHARACTER C p (CHARHT R #))(CHARACTER C q (CHARHT R #))(CHARACTER C r (CHARHT R #))", "fff"),
+    ("(CHARACTER C a (CHARDP R 0.1))(CHARACTER C b (CHARDP R 0.2))(CHARACTER C c (CHARDP R 0.3))(CHARACTER C d (CHARDP R 0.4))(CHARACTER C e (CHARDP R 0.5))(CHARACTER C f (CHARDP R 0.6))(CHARACTER C g (CHARDP R 0.7))(CHARACTER C h (CHARDP R 0.8))(CHARACTER C i (CHARDP R 0.9))(CHARACTER C j (CHARDP R 1.1))(CHARACTER C k (CHARDP R 1.2))(CHARACTER C l (CHARDP R 1.3))(CHARACTER C m (CHARDP R 1.4))(CHARACTER C n (CHARDP R -1.5))(CHARACTER C o (CHARDP R -1.6))(CHARACTER C p (CHARDP R #))(CHARACTER C q (CHARDP R #))", "ff"),
+];
+
+fn lattice(kind: u8) -> &'static [&'static str] {
+    match kind {
+        b'f' => FIX,
+        b'c' => CODES,
+        _ => INTS,
+    }
+}
+fn template_sizes() -> Vec<u64> {
+    let mut v = vec![0u64];
+    for (_, kinds) in TEMPLATES {
+        let n: u64 = kinds.bytes().map(|k| lattice(k).len() as u64).product();
+        v.push(v.last().unwrap() + n);
+    }
+    v
+}
+fn template_case(idx: u64) -> String {
+    let starts = template_sizes();
+    let ti = starts.partition_point(|s| *s <= idx) - 1;
+    let (tpl, kinds) = TEMPLATES[ti];
+    let radices: Vec<u64> = kinds.bytes().map(|k| lattice(k).len() as u64).collect();
+    let d = vcore::digits(idx - starts[ti], &radices);
+    let mut out = String::new();
+    let mut h = 0;
+    for ch in tpl.chars() {
+        if ch == '#' {
+            out.push_str(lattice(kinds.as_bytes()[h])[d[h] as usize]);
+            h += 1;
+        } else {
+            out.push(ch);
+        }
+    }
+    out
+}
+
+/// Property lists in which up to 256 characters (and the boundary) each label their own chain behind
+/// `pad` unlabelled instructions, so that up to 257 entry points need a restart word.
+fn many_entrypoints_cases() -> Vec<(String, String)> {
+    let mut out = vec![];
+    for nchars in [254usize, 255, 256] {
+        for pad in [0usize, 1, 2, 3, 254, 255, 256, 300] {
+            for boundary in [false, true] {
+                let mut s = String::from("(DESIGNSIZE R 10.0)\n");
+                if boundary {
+                    s.push_str("(BOUNDARYCHAR O 0)\n");
+                }
+                s.push_str("(LIGTABLE\n");
+                for _ in 0..pad {
+                    s.push_str(" (KRN O 1 R 0.1)\n");
+                }
+                if boundary {
+                    s.push_str(" (LABEL BOUNDARYCHAR)\n (KRN O 2 R 0.3)\n (STOP)\n");
+                }
+                for c in 0..nchars {
+                    s.push_str(&format!(" (LABEL O {:o})\n (KRN O {:o} R 0.2)\n (STOP)\n", c, (c + 1) % 256));
+                }
+                s.push_str(" )\n");
+                for c in 0..nchars {
+                    s.push_str(&format!("(CHARACTER O {c:o} (CHARWD R 1.0))\n"));
+                }
+                out.push((format!("{nchars} characters each labelling its own chain behind {pad} unlabelled instructions, boundary label: {boundary}"), s));
+            }
+        }
+    }
+    out
+}
+
+const VOCAB: &[&str] = &[
+    "(", ")", "CHARACTER", "C", "A", "LIGTABLE", "LABEL", "LIG", "KRN", "STOP", "SKIP", "D", "R", "1", "256", "-1", "BOUNDARYCHAR", "NEXTLARGER", "VARCHAR", "REP", "CHARWD", "DESIGNSIZE", "CHECKSUM", "HEADER", "FONTDIMEN", "PARAMETER", "O",
+];
+
+fn nesting_cases(thorough: bool) -> Vec<(String, String)> {
+    let mut out = vec![];
+    let mut ns = vec![1usize, 2, 3, 10, 100, 1000, 10_000, 100_000];
+    if thorough {
+        ns.push(1_000_000);
+    }
+    for n in ns {
+        for (name, open, close) in [("(", "(", ""), (")", ")", ""), ("(A", "(A ", ""), ("(CHARACTER C A", "(CHARACTER C A ", ""), ("(LIGTABLE", "(LIGTABLE ", ""), ("(COMMENT ... ) balanced", "(COMMENT ", ")"), ("(CHARACTER C A (COMMENT ... balanced", "(COMMENT ", ")"), ("(VARCHAR", "(VARCHAR ", ")")] {
+            let mut s = String::new();
+            if name.starts_with("(CHARACTER C A (COMMENT") {
+                s.push_str("(CHARACTER C A ");
+            }
+            for _ in 0..n {
+                s.push_str(open);
+            }
+            for _ in 0..n {
+                s.push_str(close);
+            }
+            out.push((format!("`{name}` x {n}"), s));
+        }
+    }
+    out
+}
+
+struct Fam {
+    name: &'static str,
+    bounds: String,
+    n: u64,
+}
+
+struct Families {
+    hdr_bases: Vec<(String, Vec<u8>)>,
+    trunc_starts: Vec<u64>,
+    mut_files: Vec<(usize, usize)>, // (tfm index, region length)
+    mut_starts: Vec<u64>,
+    pair_bases: Vec<(String, Vec<u8>)>,
+    text: TextFamily,
+    nesting: Vec<(String, String)>,
+    many: Vec<(String, String)>,
+    vocab_len: u32,
+}
+
+fn region_len(b: &[u8]) -> usize {
+    // header + char_info + lig/kern region as far as the size table can be trusted, else the whole file
+    if b.len() < 24 {
+        return b.len();
+    }
+    let g = |i: usize| u16::from_be_bytes([b[2 * i], b[2 * i + 1]]) as usize;
+    let (lh, bc, ec, nw, nh, nd, ni, nl) = (g(1), g(2), g(3), g(4), g(5), g(6), g(7), g(8));
+    let nc = (ec + 1).saturating_sub(bc);
+    (24 + 4 * (lh + nc + nw + nh + nd + ni + nl)).min(b.len())
+}
+
+impl Families {
+    fn new(d: &Data) -> Families {
+        let find = |n: &str| d.tfms.iter().find(|x| x.0 == n).cloned();
+        let mut hdr_bases: Vec<(String, Vec<u8>)> = vec![];
+        if d.thorough {
+            hdr_bases.extend(d.tfms.iter().cloned());
+        } else {
+            for n in ["computer-modern/cmr10.tfm", "computer-modern/cmex10.tfm", "originals/empty.tfm", "originals/many-ligatures.tfm"] {
+                if let Some(x) = find(n) {
+                    hdr_bases.push(x);
+                }
+            }
+        }
+        hdr_bases.extend(d.synth.iter().cloned());
+        if let Some((n, b)) = find("computer-modern/cmr10.tfm") {
+            for l in [8usize, 16, 24, 28] {
+                hdr_bases.push((format!("{n} truncated to {l} bytes"), b[..l].to_vec()));
+            }
+        }
+        let mut trunc_starts = vec![0u64];
+        for (_, b) in &d.tfms {
+            trunc_starts.push(trunc_starts.last().unwrap() + b.len() as u64 + 1);
+        }
+        let (n_small, max_len) = if d.thorough { (usize::MAX, 1400usize) } else { (40usize, 200usize) };
+        let mut mut_files = vec![];
+        let mut mut_starts = vec![0u64];
+        // fonts whose property list is huge (originals/many-entrypoints.tfm: 2 kB of TFM, 750 kB of PL)
+        // would make every mutation cost 0.1 s; they stay in the header, truncation and text families
+        let pl_small = |b: &[u8]| catch(|| tfm::algorithms::tfm_to_pl(b, 3, &fmt_default).ok().and_then(|o| o.pl_data.ok()).map(|p| p.len()).unwrap_or(0)).unwrap_or(0) <= 60_000;
+        for (i, (_, b)) in d.tfms.iter().enumerate().filter(|(_, x)| x.1.len() >= 24 && x.1.len() <= max_len && pl_small(&x.1)).take(n_small) {
+            let r = region_len(b);
+            mut_files.push((i, r));
+            mut_starts.push(mut_starts.last().unwrap() + r as u64 * 256);
+        }
+        let pair_bases: Vec<(String, Vec<u8>)> = d.synth.iter().filter(|x| x.0.contains("min")).take(if d.thorough { 2 } else { 1 }).cloned().collect();
+        Families { hdr_bases, trunc_starts, mut_files, mut_starts, pair_bases, text: TextFamily::new(d), nesting: nesting_cases(d.thorough), many: many_entrypoints_cases(), vocab_len: if d.thorough { 5 } else { 4 } }
+    }
+    fn list(&self, d: &Data) -> Vec<Fam> {
+        vec![
+            Fam { name: "tfm-header-words", bounds: format!("each of the twelve 16-bit words of the size table set to every value 0..65535, against {} base files ({})", self.hdr_bases.len(), if d.thorough { "every corpus font, synthetic minimal files, cmr10 truncated to 8/16/24/28 bytes" } else { "cmr10, cmex10, empty, many-ligatures, 5 synthetic minimal files, cmr10 truncated to 8/16/24/28 bytes" }), n: self.hdr_bases.len() as u64 * 12 * 65536 },
+            Fam { name: "tfm-size-table-pairs", bounds: format!("every pair of byte positions inside the 24-byte size table set jointly to every pair of values, on {} synthetic minimal file(s)", self.pair_bases.len()), n: self.pair_bases.len() as u64 * 276 * 65536 },
+            Fam { name: "tfm-truncations", bounds: format!("every truncation length of every corpus font ({} files)", d.tfms.len()), n: *self.trunc_starts.last().unwrap() },
+            Fam { name: "tfm-byte-mutations", bounds: format!("every 1-byte mutation (256 values) of every byte of the size table, header, char_info, dimension and lig/kern region of the {} smallest corpus fonts of 24..{} bytes (whose property list is at most 60 kB)", self.mut_files.len(), if d.thorough { 1400 } else { 200 }), n: *self.mut_starts.last().unwrap() },
+            Fam { name: "pl-token-faults", bounds: format!("every token of {} corpus property lists (files up to {} bytes, first {} tokens): deleted, duplicated, file truncated there, a parenthesis inserted, replaced by each of {} menu items (numbers 0 255 256 2047 2048 -1 77777777777, fix_word boundaries, prefixes, keywords, parentheses), numbers replaced by the character code below the first / above the last CHARACTER, property names replaced by each of {} other property names", self.text.files.len(), if d.thorough { 25000 } else { 700 }, if d.thorough { 800 } else { 400 }, REPL.len(), PROPS.len()), n: self.text.len() },
+            Fam { name: "pl-templates", bounds: format!("{} property list templates with every combination of hole values from lattices of {} fix_word texts, {} character code forms and {} integers (boundaries of every documented range)", TEMPLATES.len(), FIX.len(), CODES.len(), INTS.len()), n: *template_sizes().last().unwrap() },
+            Fam { name: "pl-short-texts", bounds: format!("every text of <= {} tokens over a {}-token vocabulary (parentheses, property names, prefixes, numbers)", self.vocab_len, VOCAB.len()), n: vcore::strings_upto(VOCAB.len() as u64, self.vocab_len) },
+            Fam { name: "pl-many-entrypoints", bounds: format!("{} property lists: 254/255/256 characters each labelling its own one-instruction chain, behind 0/1/2/3/254/255/256/300 unlabelled instructions, with and without a boundary label (up to 257 entry points in need of a restart word)", self.many.len()), n: self.many.len() as u64 },
+            Fam { name: "pl-nesting", bounds: format!("{} texts of 1..10^{} repeated openers / closers / nested comments (unbalanced and balanced)", self.nesting.len(), if d.thorough { 6 } else { 5 }), n: self.nesting.len() as u64 },
+        ]
+    }
+
+    /// Run one case of one family (inside a worker).
+    fn run(&self, d: &Data, fam: &str, idx: u64, w: &mut W) {
+        match fam {
+            "tfm-header-words" => {
+                let dg = vcore::digits(idx, &[self.hdr_bases.len() as u64, 12, 65536]);
+                let (name, base) = &self.hdr_bases[dg[0] as usize];
+                let word = dg[1] as usize;
+                if 2 * word + 1 >= base.len() {
+                    w.acc.skipped += 1;
+                    return;
+                }
+                let mut m = base.clone();
+                m[2 * word] = (dg[2] >> 8) as u8;
+                m[2 * word + 1] = dg[2] as u8;
+                let names = ["lf", "lh", "bc", "ec", "nw", "nh", "nd", "ni", "nl", "nk", "ne", "np"];
+                check_bytes(w, idx, &m, &|| bytes_case(fam, idx, &m, format!("{name}: {} = {}", names[word], dg[2])));
+            }
+            "tfm-size-table-pairs" => {
+                let dg = vcore::digits(idx, &[self.pair_bases.len() as u64, 276, 256, 256]);
+                let (name, base) = &self.pair_bases[dg[0] as usize];
+                // the dg[1]-th pair p<q of 0..24
+                let (mut p, mut r) = (0u64, dg[1]);
+                while r >= 23 - p {
+                    r -= 23 - p;
+                    p += 1;
+                }
+                let q = p + 1 + r;
+                let mut m = base.clone();
+                m[p as usize] = dg[2] as u8;
+                m[q as usize] = dg[3] as u8;
+                check_bytes(w, idx, &m, &|| bytes_case(fam, idx, &m, format!("{name}: byte {p} = {}, byte {q} = {}", dg[2], dg[3])));
+            }
+            "tfm-truncations" => {
+                let fi = self.trunc_starts.partition_point(|s| *s <= idx) - 1;
+                let l = (idx - self.trunc_starts[fi]) as usize;
+                let (name, b) = &d.tfms[fi];
+                check_bytes(w, idx, &b[..l], &|| bytes_case(fam, idx, &b[..l], format!("{name} truncated to {l} of {} bytes", b.len())));
+            }
+            "tfm-byte-mutations" => {
+                let fi = self.mut_starts.partition_point(|s| *s <= idx) - 1;
+                let r = idx - self.mut_starts[fi];
+                let (ti, _) = self.mut_files[fi];
+                let (pos, v) = ((r / 256) as usize, (r % 256) as u8);
+                let (name, b) = &d.tfms[ti];
+                if b[pos] == v {
+                    w.acc.skipped += 1;
+                    return;
+                }
+                let mut m = b.clone();
+                m[pos] = v;
+                check_bytes(w, idx, &m, &|| bytes_case(fam, idx, &m, format!("{name}: byte {pos} = {v} (was {})", b[pos])));
+            }
+            "pl-token-faults" => match self.text.case(d, idx) {
+                None => w.acc.skipped += 1,
+                Some((what, text)) => check_text(w, idx, &text, &|| text_case(fam, idx, &text, what.clone())),
+            },
+            "pl-templates" => {
+                let text = template_case(idx);
+                check_text(w, idx, &text, &|| text_case(fam, idx, &text, "template".into()));
+            }
+            "pl-short-texts" => {
+                let toks = vcore::nth_string(VOCAB.len() as u64, idx);
+                let text = toks.iter().map(|t| VOCAB[*t as usize]).collect::<Vec<_>>().join(" ");
+                check_text(w, idx, &text, &|| text_case(fam, idx, &text, "short text".into()));
+            }
+            "pl-nesting" => {
+                let (what, text) = &self.nesting[idx as usize];
+                check_text(w, idx, text, &|| text_case(fam, idx, text, what.clone()));
+            }
+            "pl-many-entrypoints" => {
+                let (what, text) = &self.many[idx as usize];
+                check_text(w, idx, text, &|| text_case(fam, idx, text, what.clone()));
+            }
+            _ => panic!("unknown family {fam}"),
+        }
+    }
+}
+
+static THOROUGH: std::sync::atomic::AtomicBool = std::sync::atomic::AtomicBool::new(false);
+fn tier_name() -> &'static str {
+    if THOROUGH.load(std::sync::atomic::Ordering::Relaxed) {
+        "thorough"
+    } else {
+        "quick"
+    }
+}
+fn bytes_case(fam: &str, idx: u64, b: &[u8], what: String) -> Value {
+    let mut v = json!({"kind": "bytes", "family": fam, "index": idx, "tier": tier_name(), "what": what, "len": b.len()});
+    if b.len() <= 16384 {
+        v["hex"] = json!(hex(b));
+    }
+    v
+}
+fn text_case(fam: &str, idx: u64, t: &str, what: String) -> Value {
+    let mut v = json!({"kind": "text", "family": fam, "index": idx, "tier": tier_name(), "what": what, "len": t.len()});
+    if t.len() <= 32768 {
+        v["text"] = json!(t);
+    }
+    v
+}
+
+// ------------------------------------------------------------------ worker side
+
+fn worker_main(args: &[String]) -> ! {
+    // --worker <family> <lo> <hi> <progress file> <tier>   |   --worker-replay <replay file> <progress file>
+    vcore::pan::install_hook();
+    let args: Vec<String> = args.to_vec();
+    let h = std::thread::Builder::new()
+        .stack_size(512 << 20)
+        .spawn(move || {
+            let mut w = W::default();
+            if args[0] == "--worker-replay" {
+                let v: Value = serde_json::from_str(&std::fs::read_to_string(&args[1]).expect("replay file")).expect("replay json");
+                let case = &v["case"];
+                let c2 = case.clone();
+                if let Some(h) = case["hex"].as_str() {
+                    check_bytes(&mut w, 0, &unhex(h), &|| c2.clone());
+                } else if let Some(t) = case["text"].as_str() {
+                    check_text(&mut w, 0, t, &|| c2.clone());
+                } else {
+                    // large cases are rebuilt from their family and index
+                    let fam = case["family"].as_str().unwrap_or("").to_string();
+                    let d = load(case["tier"].as_str() == Some("thorough"));
+                    let f = Families::new(&d);
+                    f.run(&d, &fam, case["index"].as_u64().unwrap_or(0), &mut w);
+                }
+            } else {
+                let fam = args[1].clone();
+                let (lo, hi): (u64, u64) = (args[2].parse().unwrap(), args[3].parse().unwrap());
+                let progress = std::fs::OpenOptions::new().write(true).create(true).truncate(false).open(&args[4]).expect("progress file");
+                let d = load(args[5] == "thorough");
+                let f = Families::new(&d);
+                for idx in lo..hi {
+                    let _ = progress.write_at(&idx.to_le_bytes(), 0);
+                    f.run(&d, &fam, idx, &mut w);
+                }
+                let _ = progress.write_at(&u64::MAX.to_le_bytes(), 0);
+            }
+            println!("RESULT {}", serde_json::to_string(&w_to_json(&w)).unwrap());
+        })
+        .expect("spawn worker thread");
+    match h.join() {
+        Ok(()) => std::process::exit(0),
+        Err(_) => {
+            // a panic outside `catch` is harness trouble
+            eprintln!("worker: harness code panicked");
+            std::process::exit(3)
+        }
+    }
+}
+
+// ------------------------------------------------------------------ parent side
+
+struct Job {
+    lo: u64,
+    hi: u64,
+}
+
+enum Outcome {
+    Done(W),
+    /// died or hung while running case `at`
+    Died { at: u64, how: String },
+    Broken(String),
+}
+
+fn run_worker(fam: &str, lo: u64, hi: u64, tier: &str, slot: usize, stall: Duration) -> Outcome {
+    let exe = std::env::current_exe().expect("current_exe");
+    let dir = std::env::temp_dir().join(format!("c10-{}", std::process::id()));
+    let _ = std::fs::create_dir_all(&dir);
+    let pf = dir.join(format!("progress-{slot}"));
+    let _ = std::fs::write(&pf, u64::MAX.to_le_bytes());
+    let mut child = match Command::new(exe).args(["--worker", fam, &lo.to_string(), &hi.to_string(), pf.to_str().unwrap(), tier]).stdin(Stdio::null()).stdout(Stdio::piped()).stderr(Stdio::piped()).spawn() {
+        Ok(c) => c,
+        Err(e) => return Outcome::Broken(format!("cannot spawn worker: {e}")),
+    };
+    let mut stdout = child.stdout.take().unwrap();
+    let mut stderr = child.stderr.take().unwrap();
+    let out_t = std::thread::spawn(move || {
+        let mut s = String::new();
+        let _ = stdout.read_to_string(&mut s);
+        s
+    });
+    let err_t = std::thread::spawn(move || {
+        let mut s = Vec::new();
+        let _ = stderr.read_to_end(&mut s);
+        String::from_utf8_lossy(&s).to_string()
+    });
+    let read_progress = || -> u64 { std::fs::read(&pf).ok().filter(|b| b.len() >= 8).map(|b| u64::from_le_bytes(b[..8].try_into().unwrap())).unwrap_or(u64::MAX) };
+    let mut last = (read_progress(), Instant::now());
+    let status = loop {
+        match child.try_wait() {
+            Ok(Some(s)) => break Some(s),
+            Ok(None) => {}
+            Err(_) => break None,
+        }
+        let p = read_progress();
+        if p != last.0 {
+            last = (p, Instant::now());
+        } else if p != u64::MAX && last.1.elapsed() > stall {
+            let _ = child.kill();
+            let _ = child.wait();
+            return Outcome::Died { at: p, how: format!("no return within {} s (worker killed)", stall.as_secs()) };
+        }
+        std::thread::sleep(Duration::from_millis(20));
+    };
+    let out = out_t.join().unwrap_or_default();
+    let err = err_t.join().unwrap_or_default();
+    let at = read_progress();
+    if let Some(line) = out.lines().rev().find(|l| l.starts_with("RESULT ")) {
+        if status.map(|s| s.success()).unwrap_or(false) {
+            return match serde_json::from_str::<Value>(&line[7..]) {
+                Ok(v) => Outcome::Done(w_from_json(&v)),
+                Err(e) => Outcome::Broken(format!("worker result unreadable: {e}")),
+            };
+        }
+    }
+    match status {
+        Some(s) if s.code() == Some(3) => Outcome::Broken(format!("worker harness panic: {}", vcore::clip(&err, 400))),
+        Some(s) if at != u64::MAX && at >= lo && at < hi => {
+            use std::os::unix::process::ExitStatusExt;
+            let how = match s.signal() {
+                Some(sig) => format!("process killed by signal {sig}"),
+                None => format!("process exited with status {:?}", s.code()),
+            };
+            Outcome::Died { at, how: format!("{how}; stderr: {}", vcore::clip(err.trim(), 300)) }
+        }
+        other => Outcome::Broken(format!("worker for {fam} {lo}..{hi} ended with {other:?} outside a case; stderr: {}", vcore::clip(&err, 400))),
+    }
+}
+
+fn run_family(ctx: &mut Ctx, fam: &Fam, d: &Data, f: &Families, tier: &str) {
+    if !ctx.wants(fam.name) {
+        return;
+    }
+    let t0 = Instant::now();
+    let threads = ctx.threads.max(1);
+    let chunks = (threads as u64 * 6).min(fam.n.max(1));
+    let per = fam.n.div_ceil(chunks.max(1)).max(1);
+    let jobs: std::sync::Mutex<Vec<Job>> = std::sync::Mutex::new((0..chunks).rev().map(|c| Job { lo: c * per, hi: ((c + 1) * per).min(fam.n) }).filter(|j| j.lo < j.hi).collect());
+    let total = std::sync::Mutex::new(W::default());
+    let broken = std::sync::Mutex::new(Vec::<String>::new());
+    let deadline = Instant::now() + Duration::from_secs_f64(ctx.remaining_s());
+    let capped = std::sync::atomic::AtomicBool::new(false);
+    let stall = Duration::from_secs(if tier == "thorough" { 300 } else { 90 });
+    std::thread::scope(|s| {
+        for slot in 0..threads {
+            let (jobs, total, broken, capped) = (&jobs, &total, &broken, &capped);
+            s.spawn(move || loop {
+                let Some(job) = jobs.lock().unwrap().pop() else { break };
+                if Instant::now() >= deadline {
+                    capped.store(true, std::sync::atomic::Ordering::Relaxed);
+                    break;
+                }
+                match run_worker(fam.name, job.lo, job.hi, tier, slot, stall) {
+                    Outcome::Done(w) => w_merge(&mut total.lock().unwrap(), w),
+                    Outcome::Broken(m) => broken.lock().unwrap().push(m),
+                    Outcome::Died { at, how } => {
+                        // the case at `at` killed the process: rebuild its description in-process
+                        // (building a case never calls the subject), record the failure, re-run the rest
+                        let mut w = W::default();
+                        let case = describe_case(d, f, fam.name, at);
+                        w.acc.evals += 1;
+                        w.acc.class(&format!("ABORT {}", vcore::clip(&how, 60)));
+                        note_site(&mut w, &format!("abort: {}", vcore::clip(&how, 60)), at, &|| case.clone());
+                        w.acc.fail(at, case.clone(), "a result or a documented error, plus warnings", how, "the process did not survive this input");
+                        w_merge(&mut total.lock().unwrap(), w);
+                        let mut j = jobs.lock().unwrap();
+                        if at + 1 < job.hi {
+                            j.push(Job { lo: at + 1, hi: job.hi });
+                        }
+                        if job.lo < at {
+                            j.push(Job { lo: job.lo, hi: at });
+                        }
+                    }
+                }
+            });
+        }
+    });
+    for m in broken.into_inner().unwrap() {
+        ctx.machinery_error(m);
+    }
+    let w = total.into_inner().unwrap();
+    let mut sites = SITES.lock().unwrap();
+    for (k, (n, i, c)) in &w.sites {
+        sites.push(json!({"family": fam.name, "site": k, "cases": n, "first_index": i, "first_case": c}));
+    }
+    let is_capped = capped.load(std::sync::atomic::Ordering::Relaxed);
+    ctx.push_family(fam.name, &fam.bounds, !is_capped, if is_capped { Some("wall cap hit before every index range was handed to a worker".into()) } else { None }, t0.elapsed().as_secs_f64(), w.acc);
+}
+
+static SITES: std::sync::Mutex<Vec<Value>> = std::sync::Mutex::new(vec![]);
+
+/// Description of a case without running it.
+fn describe_case(d: &Data, f: &Families, fam: &str, idx: u64) -> Value {
+    // run the family code with a recording stub: cheap re-derivation by pattern
+    match fam {
+        "pl-token-faults" => match f.text.case(d, idx) {
+            Some((what, text)) => text_case(fam, idx, &text, what),
+            None => json!({"family": fam, "index": idx}),
+        },
+        "pl-templates" => text_case(fam, idx, &template_case(idx), "template".into()),
+        "pl-short-texts" => {
+            let toks = vcore::nth_string(VOCAB.len() as u64, idx);
+            text_case(fam, idx, &toks.iter().map(|t| VOCAB[*t as usize]).collect::<Vec<_>>().join(" "), "short text".into())
+        }
+        "pl-nesting" => {
+            let (what, text) = &f.nesting[idx as usize];
+            text_case(fam, idx, text, what.clone())
+        }
+        "pl-many-entrypoints" => {
+            let (what, text) = &f.many[idx as usize];
+            text_case(fam, idx, text, what.clone())
+        }
+        _ => json!({"kind": "bytes", "family": fam, "index": idx, "tier": if d.thorough { "thorough" } else { "quick" }, "what": "rebuilt from family and index on replay"}),
+    }
+}
+
+// ------------------------------------------------------------------ model self-validation
+
+/// tfmraw against the repository's recorded expectations: the malformed headers of
+/// deserialize.rs `deserialize_tests!` (each a TFtoPL-confirmed rejection) must be rejected, the
+/// corpus fonts Knuth's TFtoPL converts without message (tfm-bin/tests/convert.rs) must be accepted.
+fn self_validate(ctx: &mut Ctx, d: &Data) {
+    let st = |v: [u16; 12], extra: usize| {
+        let mut b = size_table(v);
+        b.extend(vec![0u8; extra]);
+        b
+    };
+    let rejects: Vec<(&str, Vec<u8>)> = vec![
+        ("empty_file", vec![]),
+        ("single_byte_1", vec![2]),
+        ("internal_file_length_is_negative", st([0xff00, 0, 0, 0, 0, 0, 0, 0, 0, 0, 0, 0], 0)),
+        ("header_length_too_small_1", st([12, 1, 1, 0, 1, 1, 1, 1, 0, 0, 0, 0], 24)),
+        ("invalid_character_range_1", st([12, 2, 2, 0, 1, 1, 1, 1, 0, 0, 0, 0], 24)),
+        ("incomplete_sub_files", st([11, 2, 1, 0, 0, 1, 1, 1, 0, 0, 0, 0], 20)),
+        ("too_many_extensible_characters", st([269, 2, 1, 0, 1, 1, 1, 1, 0, 0, 257, 0], 269 * 4 - 24)),
+        ("inconsistent_sub_file_sizes", st([13, 2, 1, 0, 1, 1, 1, 1, 0, 0, 0, 0], 28)),
+    ];
+    for (name, b) in rejects {
+        if tfmraw::parse(&b).is_ok() {
+            ctx.machinery_error(format!("model self-validation: tfmraw accepts the malformed file of deserialize.rs test `{name}`"));
+        }
+    }
+    for n in ["computer-modern/cmr10.tfm", "computer-modern/cmex10.tfm", "originals/empty.tfm", "originals/many-ligatures.tfm", "ctan/aebkri.tfm"] {
+        match d.tfms.iter().find(|x| x.0 == n) {
+            None => ctx.machinery_error(format!("self-validation: corpus file {n} not found")),
+            Some((_, b)) => {
+                if let Err(e) = tfmraw::parse(b) {
+                    ctx.machinery_error(format!("model self-validation: tfmraw rejects {n}: {e:?}"));
+                }
+            }
+        }
+    }
+    for (n, b) in &d.synth {
+        if n.contains("min") && tfmraw::parse(b).is_err() {
+            ctx.machinery_error(format!("self-validation: synthetic base {n} is not a valid TFM: {:?}", tfmraw::parse(b)));
+        }
+    }
+}
+
 fn main() {
-    eprintln!("c10: check not built yet");
-    std::process::exit(2);
+    let args: Vec<String> = std::env::args().collect();
+    if let Some(p) = args.iter().position(|a| a == "--worker" || a == "--worker-replay") {
+        worker_main(&args[p..]);
+    }
+    let mut ctx = Ctx::new("C10", Level::FaultEnumeration);
+    ctx.assume("`readable TFM` = tfm::File::deserialize returns Ok and the independent reader reftex::tfmraw accepts the size table (TFtoPL §20-21 / TeX §565-566 conditions, byte length = 4*lf)");
+    ctx.assume("tfm_to_pl output is fed back into pl_to_tfm and pl_to_tfm output into tfm_to_pl: both compositions must also return");
+    ctx.assume("a worker process that dies or makes no progress for 90 s (quick) / 300 s (thorough) on one case counts as a failure of that case");
+    let tier = if ctx.quick() { "quick" } else { "thorough" };
+    let d = load(!ctx.quick());
+    if let Some((_fam, _case)) = ctx.replay_case() {
+        // replay in a subprocess as well: the case may abort the process
+        let exe = std::env::current_exe().expect("current_exe");
+        let path = ctx.replay.clone().unwrap();
+        let out = Command::new(exe).args(["--worker-replay", path.to_str().unwrap()]).stdin(Stdio::null()).output().expect("spawn replay worker");
+        let so = String::from_utf8_lossy(&out.stdout).to_string();
+        let mut acc = Acc::default();
+        match so.lines().rev().find(|l| l.starts_with("RESULT ")) {
+            Some(l) if out.status.success() => acc = w_from_json(&serde_json::from_str(&l[7..]).unwrap_or(Value::Null)).acc,
+            _ => acc.fail(0, _case.clone(), "a result or a documented error", format!("replay worker ended with {:?}; stderr: {}", out.status, vcore::clip(&String::from_utf8_lossy(&out.stderr), 300)), "the process did not survive this input"),
+        }
+        ctx.finish_replay(acc);
+    }
+    self_validate(&mut ctx, &d);
+    let f = Families::new(&d);
+    for fam in f.list(&d) {
+        run_family(&mut ctx, &fam, &d, &f, tier);
+    }
+    let _ = std::fs::remove_dir_all(std::env::temp_dir().join(format!("c10-{}", std::process::id())));
+    let mut sites = SITES.lock().unwrap().clone();
+    sites.sort_by_key(|s| (s["site"].as_str().unwrap_or("").to_string(), s["first_index"].as_u64().unwrap_or(0)));
+    for s in &sites {
+        eprintln!("  site [{}] {} case(s), first: {}", s["family"].as_str().unwrap_or(""), s["cases"], vcore::clip(&format!("{} :: {}", s["site"].as_str().unwrap_or(""), s["first_case"]["what"].as_str().unwrap_or("")), 400));
+    }
+    ctx.extra("panic_sites", json!(sites));
+    ctx.require("faulted_tfm_passes_size_checks", "faulted byte strings whose size table is still consistent (the reader goes past the header checks)");
+    ctx.require("faulted_pl_with_balanced_parentheses", "faulted texts that are still balanced property lists (the parser goes past the structure checks)");
+    ctx.require("faulted_pl_with_unbalanced_parentheses", "faulted texts with unbalanced parentheses");
+    ctx.finish("one evaluation per faulted input (a byte string given to tfm_to_pl, or a text given to pl_to_tfm, each followed by the opposite conversion of whatever was produced); non-trivial = the faulted TFM still converts to a property list, resp. the faulted property list draws at least one warning");
 }
